@@ -622,6 +622,21 @@ func (x *Exec) applyContract(st *State, fr *Frame, fc *FuncContract, key string,
 	if len(fc.Ensures) > 0 {
 		x.addSmoke("call-"+shortKey(key)+"@"+site, before, st)
 	}
+	if fc.ResultType != "" {
+		if iv, ok := res.(If); ok {
+			if t := x.p.lookupType(fc.ResultType); t != nil {
+				iv.Dyn = t
+				if pt, isP := t.Underlying().(*types.Pointer); isP {
+					iv.DynVal = Ptr{R: iv.Pl, I: Int(0), Root: pt.Elem(), Elem: pt.Elem()}
+				}
+				st.assume(Eq(iv.Tag, Int(x.p.typeID(t))))
+				res = iv
+				vars["result"] = res
+			} else {
+				x.fail("resulttype %s: unknown type", fc.ResultType)
+			}
+		}
+	}
 	if fc.ViewResult {
 		if sl, ok := res.(Sl); ok {
 			sl.View = true
@@ -817,6 +832,7 @@ func (x *Exec) checkPost(st *State, fr *Frame, res Value, pos token.Pos) {
 	if ic := x.invCtx(st, fr, nil, nil, nil); ic != nil {
 		c.names, c.iter = ic.names, ic.iter
 	}
+	c.localsFirst = true
 	// proof steps: each assert is proved at this return with the locals in scope, then assumed
 	for _, cl := range x.fc.Asserts {
 		if !c.resolvable(cl.Expr) {
@@ -834,6 +850,7 @@ func (x *Exec) checkPost(st *State, fr *Frame, res Value, pos token.Pos) {
 		st.assume(t)
 	}
 	c.names = nil
+	c.localsFirst = false
 	for _, cl := range x.fc.Ensures {
 		t := x.evalBool(st, cl, c)
 		site := fmt.Sprintf("%s@%s", lineOf(cl.Line), x.pos(pos))
@@ -1312,4 +1329,23 @@ func (x *Exec) useLemma(st *State, cl *Clause, c *evalCtx) (res *Term) {
 		body = Implies(cc.term(ax.Req), body)
 	}
 	return Implies(guard, body)
+}
+
+// lookupType resolves "*T" / "T" against the verified packages.
+func (p *Program) lookupType(name string) types.Type {
+	ptr := strings.HasPrefix(name, "*")
+	n := strings.TrimPrefix(name, "*")
+	for pkg := range p.verified {
+		if sp, ok := p.pkgs[pkg]; ok {
+			if obj := sp.Pkg.Scope().Lookup(n); obj != nil {
+				if tn, ok := obj.(*types.TypeName); ok {
+					if ptr {
+						return types.NewPointer(tn.Type())
+					}
+					return tn.Type()
+				}
+			}
+		}
+	}
+	return nil
 }
